@@ -122,7 +122,7 @@ def normalised_lookup(items, acc, nk):
 
 
 # =================================================================== parsers
-@contract(CP + "parse_yaml", no_selftest=True, props=["C05", "C20"], types=dict(file_obj=FileT, path=PathT, data=Any), returns=Any,
+@contract(CP + "parse_yaml", no_selftest=True, props=["C05", "C20", "C18"], types=dict(file_obj=FileT, path=PathT, data=Any), returns=Any,
           raises=["ConfigParseError"])
 class ParseYaml:
     """Malformed YAML is a ConfigParseError (nothing else escapes); an empty document is the empty config."""
@@ -131,7 +131,7 @@ class ParseYaml:
         return yaml_doc(file_obj) if yaml_doc(file_obj) is not None else {}
 
 
-@contract(CP + "parse_json", no_selftest=True, props=["C05", "C20"], types=dict(file_obj=FileT, path=PathT, result=Any), returns=Any,
+@contract(CP + "parse_json", no_selftest=True, props=["C05", "C20", "C18"], types=dict(file_obj=FileT, path=PathT, result=Any), returns=Any,
           raises=["ConfigParseError"])
 class ParseJson:
     def value(file_obj, path):
@@ -143,7 +143,7 @@ def tool_thailint(doc):
     return doc.get("tool", {}).get("thailint", {})
 
 
-@contract(CP + "parse_pyproject_toml", no_selftest=True, props=["C05"], types=dict(path=PathT, f=FileT, data=Any, thailint_config=Any),
+@contract(CP + "parse_pyproject_toml", no_selftest=True, props=["C05", "C18"], types=dict(path=PathT, f=FileT, data=Any, thailint_config=Any),
           returns=Dict, raises=["ConfigParseError"])
 class ParsePyprojectToml:
     """Unreadable or malformed pyproject.toml is a ConfigParseError; otherwise the NORMALISED [tool.thailint] table."""
@@ -159,7 +159,7 @@ def suffix_lower(path):
     return path.suffix.lower()
 
 
-@contract(CP + "parse_config_file", no_selftest=True, props=["C05", "C20"], types=dict(path=PathT, encoding=Str, f=FileT, config=Any, suffix=Str),
+@contract(CP + "parse_config_file", no_selftest=True, props=["C05", "C20", "C18"], types=dict(path=PathT, encoding=Str, f=FileT, config=Any, suffix=Str),
           returns=Dict, raises=["ConfigParseError", "OSError"])
 class ParseConfigFile:
     """.yaml/.yml -> YAML, .json -> JSON (extension compared lower-cased), anything else is a ConfigParseError; the
@@ -176,6 +176,9 @@ class ParseConfigFile:
     def ensures_json(path, result):
         return implies(suffix_lower(path) == ".json", result == norm_fold(dict_items(json_doc(file_of(path))), {}))
 
+    def ensures_only_supported_formats_return(path, result):
+        return suffix_lower(path) in (".yaml", ".yml", ".json")
+
     def on_raise_unsupported_or_unparsable(path, exc_class):
         return exc_class in ("ConfigParseError", "OSError")
 
@@ -187,7 +190,7 @@ class GetDefaults:
         return {"rules": {}, "ignore": []}
 
 
-@contract(LD + "load_config", no_selftest=True, props=["C05"], types=dict(config_path=PathT, pyproject_path=PathT, config=Dict), returns=Dict,
+@contract(LD + "load_config", no_selftest=True, props=["C05", "C18"], types=dict(config_path=PathT, pyproject_path=PathT, config=Dict), returns=Dict,
           raises=["ConfigParseError", "OSError"])
 class LoadConfig:
     """Existing file: parse_config_file. Missing file: [tool.thailint] of the pyproject.toml next to it (normalised like
@@ -196,6 +199,9 @@ class LoadConfig:
 
     def requires(config_path):
         return isinstance(yaml_doc(file_of(config_path)), dict) or yaml_doc(file_of(config_path)) is None
+
+    def ensures_is_the_loaded_configuration(config_path, result):
+        return result == loaded(config_path)
 
     def ensures_missing_file_uses_pyproject(config_path, result):
         return implies(not fs_exists(config_path),
@@ -221,6 +227,25 @@ def pyproject_of(config_path):
     return path_div(path_parent(config_path), "pyproject.toml")
 
 
+def parsed(path):
+    """The configuration a YAML / JSON file denotes: its document with the TOP-LEVEL keys normalised (nested values --
+    option names, directory names under file-placement ... -- are returned exactly as written)."""
+    return norm_fold(dict_items((yaml_doc(file_of(path)) if yaml_doc(file_of(path)) is not None else {})
+                                if suffix_lower(path) in (".yaml", ".yml") else json_doc(file_of(path))), {})
+
+
+def pyproject_table(config_path):
+    return norm_fold(dict_items(tool_thailint(toml_doc(file_of(pyproject_of(config_path))))), {})
+
+
+def loaded(config_path):
+    """What the loader yields for a path -- a function of the file system only: the file's configuration when it exists,
+    else the [tool.thailint] table of the pyproject.toml next to it, else (no pyproject, or an empty table) the defaults."""
+    return parsed(config_path) if fs_exists(config_path) else (
+        pyproject_table(config_path) if fs_exists(pyproject_of(config_path)) and pyproject_table(config_path) != {}
+        else {"rules": {}, "ignore": []})
+
+
 @external("Path.@parent")
 def _x_path_parent(ex, args, kwargs, lineno):
     ex.ufs_used.add("path_parent")
@@ -230,13 +255,39 @@ def _x_path_parent(ex, args, kwargs, lineno):
 LoaderT = Rec("LinterConfigLoader", cls=LD + "LinterConfigLoader")
 
 
-@contract(LD + "LinterConfigLoader.load", no_selftest=True, props=["C05"], types=dict(self=LoaderT, config_path=PathT), returns=Dict,
+@contract(LD + "LinterConfigLoader.load", no_selftest=True, props=["C05", "C18"], types=dict(self=LoaderT, config_path=PathT), returns=Dict,
           raises=["ConfigParseError", "OSError"])
 class LoaderLoad:
     def requires(config_path):
         return isinstance(yaml_doc(file_of(config_path)), dict) or yaml_doc(file_of(config_path)) is None
 
+    def ensures_is_the_loaded_configuration(config_path, result):
+        return result == loaded(config_path)
+
     def ensures_missing_file_uses_pyproject(config_path, result):
         return implies(not fs_exists(config_path),
                        result == norm_fold(dict_items(tool_thailint(toml_doc(file_of(pyproject_of(config_path))))), {})
                        or result == {"rules": {}, "ignore": []})
+
+
+# =================================================================== --config FILE replaces the discovered configuration
+# Property text: the configuration may be "in .thailint.yaml, .thailint.json, pyproject.toml [tool.thailint] or passed with
+# --config" and is honoured identically: a file passed with --config IS the configuration of the run -- exactly what the
+# loader yields for that path; nothing of the project's auto-discovered configuration survives (no overlay).
+from contracts.c09_paths import path_of_str  # noqa: E402
+
+CliOrchT = Rec("Orchestrator", cls="src/orchestrator/core.py::Orchestrator", config=Dict, config_loader=LoaderT)
+
+
+@contract("src/cli/utils.py::load_config_file~c05", no_selftest=True, props=["C05"],
+          types=dict(orchestrator=CliOrchT, config_file=Str, verbose=Bool, config_path=PathT),
+          raises=["SystemExit", "ConfigParseError", "OSError"], modifies=["orchestrator.config", "stderr"], exc=Int)
+class LoadConfigFileReplaces:
+    def requires(orchestrator, config_file, verbose):
+        return isinstance(yaml_doc(file_of(path_of_str(config_file))), dict) or yaml_doc(file_of(path_of_str(config_file))) is None
+
+    def ensures_config_is_exactly_the_loaded_file(orchestrator, config_file):
+        return orchestrator.config == loaded(path_of_str(config_file))
+
+    def on_raise_missing_file_is_exit_2(config_file, exc, exc_class):
+        return implies(exc_class == "SystemExit", exc == 2 and not fs_exists(path_of_str(config_file)))
